@@ -9,7 +9,7 @@ cp "$SRC/patch.diff" "$SRC/demo.py" "seeded/$ID/" || exit 2
 cp "$SRC/meta.json" "seeded/$ID/agent_meta.json"
 WT=$(mktemp -d /tmp/wcverif-confirm-XXXXXX); rmdir "$WT"
 git -C /repo worktree add -q "$WT" HEAD || exit 2
-if ! git -C "$WT" apply "$HERE/seeded/$ID/patch.diff" 2>/dev/null; then
+if ! git -C "$WT" apply "$HERE/seeded/$ID/patch.diff" 2>/dev/null && ! git -C "$WT" apply --3way "$HERE/seeded/$ID/patch.diff" >/dev/null 2>&1; then
   echo "== patch does not apply to HEAD"; git -C /repo worktree remove --force "$WT"; exit 3
 fi
 echo "== suite with change: $(cd "$WT" && PYTHONPATH="$WT" /venv/bin/python -m pytest -q -p no:cacheprovider 2>&1 | tail -1)"
